@@ -41,9 +41,16 @@ def main():
     lean = common.lean_gate(pid, getattr(mod, 'REQUIRED', []), a.tier)
     drv = common.Driver() if lean['driver_ok'] else None
     rng = common.rng_for(pid, seed)
+    aborted = None
     try:
         with common.quiet():
             mod.run(chk, drv, rng, a.tier)
+    except Exception as e:      # noqa: BLE001
+        # an inconclusive / crashed run still reports the property failures it had already found
+        if not chk.d_fail:
+            raise
+        aborted = '%s: %s' % (type(e).__name__, e)
+        chk.notes.append('run aborted after recording failures: ' + aborted)
     finally:
         if drv is not None:
             drv.close()
